@@ -151,7 +151,7 @@ Section Alg.
   Lemma sum_indicator {A} (eqd : forall a b : A, {a = b} + {a <> b}) (g : A -> R) (q : A) l :
     NoDup l -> In q l -> sum (map (fun x => if eqd q x then g x else 0) l) = g q.
   Proof.
-    induction l as [|x l IH]; intros Hnd Hin; [destruct Hin|]. inversion Hnd as [|? ? Hnx Hnd']; subst.
+    induction l as [|x l IH]; intros Hnd Hin; [destruct Hin|]. apply NoDup_cons_iff in Hnd. destruct Hnd as [Hnx Hnd'].
     norm. destruct (eqd q x) as [->|Hne].
     - rewrite (sum_map_ext _ (fun _ => 0)), sum_map_zero; [ring|].
       intros y Hy. destruct (eqd x y) as [->|]; [contradiction|reflexivity].
